@@ -902,9 +902,14 @@ func Merge[T any](in ...Stream[T]) Stream[T] {
 		// Nothing will ever finish and close the sender, so do it here.
 		sender.Close(nil)
 	}
+	var wg sync.WaitGroup
+	wg.Add(len(in))
 	for i := 0; i < len(in); i++ {
 		i := i
 		go func() {
+			defer wg.Done()
+			// Merge owns its inputs: each is closed by the only goroutine that uses it.
+			defer in[i].Close()
 			defer func() {
 				if int(atomic.AddUint32(&nDone, 1)) == len(in) &&
 					atomic.LoadUint32(&closeOnce) == 0 {
@@ -932,12 +937,13 @@ func Merge[T any](in ...Stream[T]) Stream[T] {
 	}
 	// Closing the merged stream also cancels ctx, so that goroutines waiting on a slow input do
 	// not linger until that input happens to produce something.
-	return &mergeStream[T]{inner: receiver, cancel: cancel}
+	return &mergeStream[T]{inner: receiver, cancel: cancel, wg: &wg}
 }
 
 type mergeStream[T any] struct {
 	inner  Stream[T]
 	cancel func()
+	wg     *sync.WaitGroup
 }
 
 func (s *mergeStream[T]) Next(ctx context.Context) (T, error) {
@@ -947,6 +953,8 @@ func (s *mergeStream[T]) Next(ctx context.Context) (T, error) {
 func (s *mergeStream[T]) Close() {
 	s.inner.Close()
 	s.cancel()
+	// Once the goroutines are gone every input has been closed.
+	s.wg.Wait()
 }
 
 // Runs returns a stream of streams. The inner streams yield contiguous elements from s such that
